@@ -9,6 +9,7 @@ use crate::refmodel::cost::BusRegs;
 use crate::refmodel::decode::Class;
 use crate::runrig::{run_with_hook, shared, RunEnd, RunRig};
 use crate::util::{panic_sig, Cfg, Report, Rng};
+use std::panic::{catch_unwind, AssertUnwindSafe};
 
 fn adversaries() -> Vec<u32> {
     vec![
@@ -257,7 +258,17 @@ pub fn c15(rep: &mut Report, cfg: &Cfg) {
         let seed = rng.next();
         run_fuzz_lines(rep, seed, prof);
     }
-    rep.notes.push("C15: (a) all 65 536 first words x adversarial register files (0, 1, 2, 3, 0xFFFFFFFF, 0x00FFFFFF, region edges +-1, odd values) x CCR pool x four bus-controller settings (incl. maximal waits), executed from the first and last bytes of every mapped region; (b) every implemented form with adversarial fields and registers; (c) interrupt acceptance with adversarial SP and all 256 vector numbers; (d) seeded random programs (valid forms, random words, jumps/returns to unmapped or odd targets, stack at region edges) through the real run(); (e) control-channel lines from a fuzzing grammar (valid, truncated, extra fields, huge/negative numbers, empty, non-ASCII) into a running run(). Every panic is a finding keyed by file + enclosing function + message class. Both build profiles (release; release + overflow-checks + debug-assertions). Cells: (opcode class, adversary, code region, profile), outcomes, (form, profile), distinct panic signatures.".into());
+    // ---- (i) long horizon in the overflow-checking build: more than 2^32 instructions on ONE machine
+    // (a counter that is too narrow panics when it wraps); thorough tier, one shard
+    let long_steps: u64 = match std::env::var("H8MON_LONG_STEPS").ok().and_then(|s| s.parse().ok()) {
+        Some(n) => n,
+        None if cfg.tier_thorough && cfg.shard == 0 && profile == "ovf" && cfg.scale >= 1.0 => (1u64 << 32) + (1 << 20),
+        None => 0,
+    };
+    if long_steps > 0 {
+        long_run(rep, long_steps, prof);
+    }
+    rep.notes.push("C15: (i) in the thorough tier one overflow-checking shard executes more than 2^32 instructions on one machine. (a) all 65 536 first words x adversarial register files (0, 1, 2, 3, 0xFFFFFFFF, 0x00FFFFFF, region edges +-1, odd values) x CCR pool x four bus-controller settings (incl. maximal waits), executed from the first and last bytes of every mapped region; (b) every implemented form with adversarial fields and registers; (c) interrupt acceptance with adversarial SP and all 256 vector numbers; (d) seeded random programs (valid forms, random words, jumps/returns to unmapped or odd targets, stack at region edges) through the real run(); (e) control-channel lines from a fuzzing grammar (valid, truncated, extra fields, huge/negative numbers, empty, non-ASCII) into a running run(). Every panic is a finding keyed by file + enclosing function + message class. Both build profiles (release; release + overflow-checks + debug-assertions). Cells: (opcode class, adversary, code region, profile), outcomes, (form, profile), distinct panic signatures.".into());
 }
 
 pub fn run_fuzz_program(rep: &mut Report, seed: u64, prof: u64) -> bool {
@@ -512,4 +523,47 @@ pub fn replay(line: &str) -> (bool, String) {
         out.push_str(&format!("  FINDING {}: {}\n", f.sig, f.detail));
     }
     (bad, out)
+}
+
+/// more than 2^32 instructions on one machine (see c15 (i))
+pub fn long_run(rep: &mut Report, long_steps: u64, prof: u64) {
+    let mut cpu = Cpu::new();
+    // INC.W #1,R0 ; MOV.W R0,@H'FFC100 ; BRA back  (fetch, data write, branch in every round)
+    let code: [u8; 8] = [0x0b, 0x50, 0x6b, 0x80, 0xc1, 0x00, 0x40, 0xf8];
+    for (i, b) in code.iter().enumerate() {
+        crate::mon::real_poke(&mut cpu, 0xffc000 + i as u32, *b);
+    }
+    cpu.verif_set_pc(0xffc000);
+    let mut done = 0u64;
+    let mut failed = None;
+    while done < long_steps && failed.is_none() {
+        let chunk = (1u64 << 22).min(long_steps - done);
+        let r = catch_unwind(AssertUnwindSafe(|| {
+            for k in 0..chunk {
+                if cpu.verif_step().is_err() {
+                    return Err(k);
+                }
+            }
+            Ok(())
+        }));
+        match r {
+            Ok(Ok(())) => done += chunk,
+            Ok(Err(k)) => {
+                failed = Some(format!("step {} of a three-instruction loop returned an error", done + k));
+            }
+            Err(_) => {
+                let p = crate::util::take_panic().unwrap_or_default();
+                rep.finding(&format!("long-run|{}", panic_sig(&p)), || format!("panic at {}:{}: {} between steps {} and {} of a three-instruction loop on one machine", p.file, p.line, p.msg, done, done + chunk), || "check=C15 kind=longrun".to_string());
+                failed = Some("panic".into());
+            }
+        }
+    }
+    if let Some(f) = failed {
+        if f != "panic" {
+            rep.finding("long-run|error", || f.clone(), || "check=C15 kind=longrun".to_string());
+        }
+    }
+    rep.evaluations += 1;
+    rep.count("long_run_instructions", done);
+    rep.cell("long-run-log2-steps", &[(64 - done.leading_zeros()) as u64, prof]);
 }
